@@ -356,126 +356,59 @@ def c12Oracle (op : ParsedOperation) (norm : List NTree) : String :=
 /-! ### C27: type text against the operation / the selection set -/
 
 mutual
-/-- nullable / list structure of a schema type -/
-def TypeAnn.shape : TypeAnn → TyShape
-  | .scalar _ => .leaf
-  | .plural t => .list t.shape
-  | .union nullable variants =>
-    if nullable then .nullable (TypeAnn.firstShape variants) else TypeAnn.firstShape variants
-def TypeAnn.firstShape : List TypeAnn → TyShape
-  | [] => .leaf
-  | t :: _ => t.shape
+/-- a parsed object type as a `Shape` (`none` when the `?` marker disagrees with the type:
+optional ⇔ nullable at the top) -/
+def TProp.toShape : TProp → Option Shape
+  | .mk key opt _ shape alts =>
+    let topNullable := match shape with | .nullable _ => true | _ => false
+    if opt != topNullable then none else
+    match alts with
+    | none => some (.prop key shape none)
+    | some a => (TProp.toShapeAlts a).map fun x => .prop key shape (some x)
+def TProp.toShapeProps : List TProp → Option (List Shape)
+  | [] => some []
+  | p :: rest =>
+    match p.toShape, TProp.toShapeProps rest with
+    | some x, some xs => some (x :: xs)
+    | _, _ => none
+def TProp.toShapeAlts : List (List TProp) → Option (List (List Shape))
+  | [] => some []
+  | a :: rest =>
+    match TProp.toShapeProps a, TProp.toShapeAlts rest with
+    | some x, some xs => some (x :: xs)
+    | _, _ => none
 end
 
-/-- expected property: key, expected type (if the schema table has the field), alternatives -/
-inductive XProp where
-  | mk (key : Str) (ty : Option TypeAnn) (alts : Option (List (List XProp)))
-deriving Inhabited
+def Shape.key : Shape → Str
+  | .prop k _ _ => k
 
-def qKey : QNode → Str
-  | .field alias name _ _ => alias.getD name
-  | .frag ty _ => ty
-
-/-- GraphQL field merging of two selection lists (same response key ⇒ sub-selections merged) -/
-def mergeSels : Nat → List QNode → List QNode → List QNode
-  | 0, a, b => a ++ b
-  | _, a, [] => a
-  | fuel + 1, a, b :: bs =>
-    match b with
-    | .field alias name args kids =>
-      let key := alias.getD name
-      if a.any (fun x => match x with | .field al n _ _ => al.getD n == key | _ => false) then
-        mergeSels fuel (a.map fun x =>
-          match x with
-          | .field al n ar ks =>
-            if al.getD n == key then
-              .field al n ar (match ks, kids with
-                | some k1, some k2 => some (mergeSels fuel k1 k2)
-                | some k1, none => some k1
-                | none, k2 => k2)
-            else x
-          | other => other) bs
-      else mergeSels fuel (a ++ [.field alias name args kids]) bs
-    | .frag ty ks =>
-      if a.any (fun x => match x with | .frag t _ => t == ty | _ => false) then
-        mergeSels fuel (a.map fun x =>
-          match x with
-          | .frag t k1 => if t == ty then .frag t (mergeSels fuel k1 ks) else x
-          | other => other) bs
-      else mergeSels fuel (a ++ [.frag ty ks]) bs
-
-def isFragNode : QNode → Bool
-  | .frag .. => true
-  | _ => false
-
-/-- the alternatives the response object can take: without inline fragments one alternative with
-one property per field; with inline fragments one alternative per fragment (fields outside the
-fragments merged with the fragment's) -/
-def expectedAlts (schema : Schema) : Nat → Str → List QNode → List (List XProp)
-  | 0, _, _ => []
-  | fuel + 1, parent, sels =>
-    let frags := sels.filter isFragNode
-    let rest := sels.filter (fun q => !(isFragNode q))
-    let props (parent : Str) (fields : List QNode) : List XProp :=
-      fields.filterMap fun q =>
-        match q with
-        | .field alias name _ kids =>
-          let entry := schema.lookup parent name
-          let ty := entry.map (·.ty)
-          let target := (ty.bind TypeAnn.inner).getD []
-          some (.mk (alias.getD name) ty (kids.map fun ks => expectedAlts schema fuel target ks))
-        | .frag .. => none
-    if frags.isEmpty then [props parent rest]
-    else frags.flatMap fun f =>
-      match f with
-      | .frag ty ks => expectedAlts schema fuel ty (mergeSels 1000 rest ks)
-      | _ => []
-
-def insertProp (p : TProp) : List TProp → List TProp
+def insertShape (p : Shape) : List Shape → List Shape
   | [] => [p]
-  | q :: rest =>
-    match p, q with
-    | .mk k1 .., .mk k2 .. => if lexLt k1 k2 then p :: q :: rest else q :: insertProp p rest
+  | q :: rest => if lexLt p.key q.key then p :: q :: rest else q :: insertShape p rest
 
-def sortProps (ps : List TProp) : List TProp := ps.foldl (fun acc p => insertProp p acc) []
-
-def insertXProp (p : XProp) : List XProp → List XProp
-  | [] => [p]
-  | q :: rest =>
-    match p, q with
-    | .mk k1 .., .mk k2 .. => if lexLt k1 k2 then p :: q :: rest else q :: insertXProp p rest
-
-def sortXProps (ps : List XProp) : List XProp := ps.foldl (fun acc p => insertXProp p acc) []
+def sortShapes (ps : List Shape) : List Shape := ps.foldl (fun acc p => insertShape p acc) []
 
 mutual
-/-- compare a parsed type with the expectation; `none` = they agree -/
-def propsDiff : Nat → List TProp → List XProp → Option String
+/-- first difference between the type's shape and the expected one (properties compared as
+sets: sorted by key); `none` = they agree -/
+def shapesDiff : Nat → List Shape → List Shape → Option String
   | 0, _, _ => none
   | _, [], [] => none
-  | fuel + 1, .mk k opt _ shape alts :: ts, .mk xk xty xalts :: xs =>
-    if k != xk then some (if xk == cs!"__typename" && k != cs!"__typename" then "keys:typename" else "keys")
+  | fuel + 1, .prop k ty kids :: ts, .prop xk xty xkids :: xs =>
+    if k != xk then some (if xk == cs!"__typename" then "keys:typename" else "keys")
+    else if ty != xty then some "nullable-or-list"
     else
-      let tyOk : Option String :=
-        match xty with
-        | none => none
-        | some ty =>
-          if opt != ty.isNullable then some "nullable"
-          else if shape != ty.shape then some "list-shape"
-          else none
-      match tyOk with
-      | some d => some d
-      | none =>
-        match alts, xalts with
-        | none, none => propsDiff fuel ts xs
-        | some a, some xa => (altsDiff fuel a xa).orElse fun _ => propsDiff fuel ts xs
-        | _, _ => some "nesting"
-  | _, [], .mk xk .. :: _ => some (if xk == cs!"__typename" then "keys:typename" else "keys")
+      match kids, xkids with
+      | none, none => shapesDiff fuel ts xs
+      | some a, some xa => (shapeAltsDiff fuel a xa).orElse fun _ => shapesDiff fuel ts xs
+      | _, _ => some "nesting"
+  | _, [], .prop xk .. :: _ => some (if xk == cs!"__typename" then "keys:typename" else "keys")
   | _, _ :: _, [] => some "keys"
-def altsDiff : Nat → List (List TProp) → List (List XProp) → Option String
+def shapeAltsDiff : Nat → List (List Shape) → List (List Shape) → Option String
   | 0, _, _ => none
   | _, [], [] => none
   | fuel + 1, a :: as, x :: xs =>
-    (propsDiff fuel (sortProps a) (sortXProps x)).orElse fun _ => altsDiff fuel as xs
+    (shapesDiff fuel (sortShapes a) (sortShapes x)).orElse fun _ => shapeAltsDiff fuel as xs
   | _, _, _ => some "alternatives"
 end
 
@@ -491,12 +424,23 @@ def hasFrags : Nat → List QNode → Bool
 /-- C27 (raw response type): keys, nesting and list structure of the raw response type are those
 of the operation -/
 def c27RawOracle (schema : Schema) (root : Str) (op : ParsedOperation) (raw : List (List TProp)) : String :=
-  match altsDiff 1000 raw (expectedAlts schema 1000 root op.selections) with
-  | none => "ok"
-  | some d =>
-    if d == "keys:typename" then "bad:raw:empty-selection-typename"
-    else if hasFrags 1000 op.selections then "bad:raw:" ++ d ++ ":with-inline-fragments"
-    else "bad:raw:" ++ d
+  match TProp.toShapeAlts raw with
+  | none => "bad:raw:optional-marker"
+  | some rawShape =>
+    -- `__typename` exists on every entity (the table only lists fields named in the map)
+    let entities := (root :: schema.map (·.entity)) ++ schema.filterMap (fun e => e.ty.inner)
+    let typenames : Schema := entities.filterMap fun e =>
+      if (schema.lookup e cs!"__typename").isSome then none
+      else some ⟨e, cs!"__typename", true, false, .scalar cs!"String", cs!"string"⟩
+    match expectedAlts (schema ++ typenames) 1000 root (QNode.toTrees op.selections) with
+    | none => "bad:raw:schema-table-incomplete"
+    | some expected =>
+      match shapeAltsDiff 1000 rawShape expected with
+      | none => "ok"
+      | some d =>
+        if d == "keys:typename" then "bad:raw:empty-selection-typename"
+        else if hasFrags 1000 op.selections then "bad:raw:" ++ d ++ ":with-inline-fragments"
+        else "bad:raw:" ++ d
 
 /-- C27 (parameter type): exactly one property per selection, named by alias-or-name; nullable and
 list structure of server fields as in the schema -/
@@ -682,12 +626,19 @@ def persistedLine (wires table plain impl : List String) : String :=
       else if !(strSetEq (ds.map (·.1)) implIds) then "bad:documents-not-exact"
       else
         let pairs := implIds.zip plainFiles
-        let same := pairs.all fun (id, pf) =>
+        let differs : Option String := pairs.findSome? fun (id, pf) =>
           match ds.find? (fun e => e.1 == id), pf.bind embeddedText with
           | some e, some text =>
-            stripInsignificant e.2 == stripInsignificant (dropContinuations text)
-          | _, _ => false
-        if same then "ok" else "bad:document-differs"
+            match jsSingleQuotedValue text with
+            | none => some "unevaluable-operation-text"
+            | some sent =>
+              if stripInsignificant e.2 == stripInsignificant sent then none
+              else if text.contains 92 && (dropContinuations text).contains 92 then some "backslash-in-string"
+              else some "other"
+          | _, _ => some "missing"
+        match differs with
+        | none => "ok"
+        | some c => "bad:document-differs:" ++ c
   model ++ "\t" ++ verdict
 
 def pNameArgs (ts : List String) : Option (Str × Args) :=
